@@ -14,10 +14,13 @@
 (*       implementation is fed v * unit, see driver)                        *)
 (*   ok  meta.success       rt   relative time                              *)
 (* A store is [recs |-> sequence of records, ap |-> <<m, t, n, a0, step,    *)
-(* fails>>]: besides the explicit records, n normal own records of (m, t)   *)
-(* with values a0 + i*step, rt = i (i = 0..n-1), the first `fails` of them  *)
-(* with ok = FALSE (arithmetic progression; n = 0: none).  Well-formed: no  *)
-(* explicit normal own record for the (m, t) of the progression.            *)
+(* fails, tn, gap>>]: besides the explicit records, n normal own records of *)
+(* (m, t) with values a0 + i*step, rt = i (i = 0..n-1), the first `fails`   *)
+(* of them with ok = FALSE (arithmetic progression; n = 0: none); the       *)
+(* largest tn of them are outliers: the j-th of these (j = 1..tn) is larger *)
+(* by j*gap (heavy tail: unequal neighbours at the high ranks).             *)
+(* Well-formed: no explicit normal own record for the (m, t) of the         *)
+(* progression, tn <= n.                                                    *)
 (*                                                                         *)
 (* Numbers in results are rationals in lowest terms [n |-> num, d |-> den], *)
 (* d > 0.  None is [n |-> 0, d |-> 0].  d < 0 marks a value recorded from   *)
@@ -28,7 +31,7 @@
 EXTENDS Integers, Sequences, FiniteSets, SequencesExt, TLC
 
 CONSTANTS Inputs,             \* set of inputs: [kind |-> "store", S |-> store] or [kind |-> "doc", doc |-> document]
-          Sched,              \* schedule: sequence of <<task name, include-in-reporting>>
+          Sched,              \* schedule: sequence of <<task name, include-in-reporting, operation name>>
           ZeroThroughputFix   \* TRUE: repaired summary_stats (0 is a value); FALSE: pinned truthiness test
 
 None == [n |-> 0, d |-> 0]
@@ -56,18 +59,19 @@ PList == <<0, 5000, 9000, 9900, 9990, 9999, 10000>>      \* percentiles asked di
 Match(r, m, t, nrmOnly, ownOnly) == r[1] = m /\ r[2] = t /\ (nrmOnly => r[4]) /\ (ownOnly => r[3])
 Sel(S, m, t, nrmOnly, ownOnly) == SelectSeq(S.recs, LAMBDA r : Match(r, m, t, nrmOnly, ownOnly))
 HasAP(S, m, t) == S.ap[3] > 0 /\ S.ap[1] = m /\ S.ap[2] = t
-WellFormed(S) == S.ap[3] > 0 => Sel(S, S.ap[1], S.ap[2], TRUE, TRUE) = <<>>
+WellFormed(S) == S.ap[3] > 0 => Sel(S, S.ap[1], S.ap[2], TRUE, TRUE) = <<>> /\ S.ap[7] \in 0..S.ap[3] /\ S.ap[8] >= 0
 
-ColOf(vs) == [n |-> Len(vs), ap |-> FALSE, a0 |-> 0, step |-> 0, sv |-> SortSeq(vs, LAMBDA a, b : a < b)]
+ColOf(vs) == [n |-> Len(vs), ap |-> FALSE, a0 |-> 0, step |-> 0, tn |-> 0, gap |-> 0, sv |-> SortSeq(vs, LAMBDA a, b : a < b)]
 (* values of the normal records of (m, t); own: restricted to the task's operation type (as the code does) *)
 ColX(S, m, t, own) ==
-    IF HasAP(S, m, t) THEN [n |-> S.ap[3], ap |-> TRUE, a0 |-> S.ap[4], step |-> S.ap[5], sv |-> <<>>]
+    IF HasAP(S, m, t) THEN [n |-> S.ap[3], ap |-> TRUE, a0 |-> S.ap[4], step |-> S.ap[5], tn |-> S.ap[7], gap |-> S.ap[8], sv |-> <<>>]
     ELSE LET rs == Sel(S, m, t, TRUE, own) IN ColOf([i \in 1..Len(rs) |-> rs[i][5]])
 Col(S, m, t) == ColX(S, m, t, TRUE)
-At(c, i) == IF c.ap THEN c.a0 + i * c.step ELSE c.sv[i + 1]       \* i-th smallest value, i = 0..n-1
+At(c, i) == IF c.ap THEN c.a0 + i * c.step + (IF i >= c.n - c.tn THEN (i - (c.n - c.tn) + 1) * c.gap ELSE 0)
+            ELSE c.sv[i + 1]                                       \* i-th smallest value, i = 0..n-1
 CMin(c) == Whole(At(c, 0))
 CMax(c) == Whole(At(c, c.n - 1))
-CSum(c) == IF c.ap THEN c.n * c.a0 + c.step * ((c.n * (c.n - 1)) \div 2) ELSE SumSeq(c.sv)
+CSum(c) == IF c.ap THEN c.n * c.a0 + c.step * ((c.n * (c.n - 1)) \div 2) + c.gap * ((c.tn * (c.tn + 1)) \div 2) ELSE SumSeq(c.sv)
 Mean(c) == Rat(CSum(c), c.n)
 (* the median as the statement defines it: the middle value, or the mean of the two middle values *)
 Median(c) == IF c.n % 2 = 1 THEN Whole(At(c, (c.n - 1) \div 2))
@@ -173,12 +177,21 @@ Persist(R) == [has |-> GKeys, g |-> R.g, hasOps |-> TRUE, ops |-> R.ops]
 Load(doc) == [ops |-> IF doc.hasOps THEN doc.ops ELSE <<>>,
               g |-> [key \in GKeys |-> IF key \in doc.has THEN doc.g[key] ELSE None]]
 
+(* GlobalStats.metrics(task), the access path of compare on results read back from race.json: the FIRST entry of *)
+(* op_metrics whose task name is `task` (the operation name only stands in for a missing task key of pre-0.8.0    *)
+(* files, so an operation named like another task must not match).  Entries exist for the reported tasks only.    *)
+Entries(R, sched) == SelectSeq([i \in 1..Len(sched) |-> [task |-> sched[i][1], op |-> sched[i][3], r |-> R.ops[i]]], LAMBDA e : e.r.p)
+Lookup(R, sched, name) == LET es == SelectSeq(Entries(R, sched), LAMBDA e : e.task = name)
+                          IN IF es = <<>> THEN NoOp ELSE es[1].r
+ReadBack(R, sched) == [ops |-> [i \in 1..Len(sched) |-> Lookup(R, sched, sched[i][1])], g |-> R.g]
+
 (***************************************************************************)
 (* Property C08 as predicates over (store, schedule, observation) so that  *)
 (* the trace specification evaluates the same formulas on results recorded *)
 (* from the implementation.  Observation o:                                *)
 (*   R   results of calculate_results        RN  the same on NormalOnly(S) *)
 (*   RL  read back by find_by_race_id        RS  read back through list()   *)
+(*       (per task through GlobalStats.metrics(task), as compare does)      *)
 (*   D, DN  direct getter answers on S / NormalOnly(S)                      *)
 (*   diff   paths at which reloaded and original results differ (==)        *)
 (* Clauses about one (metric, task) are stated where "the requests of the   *)
@@ -191,6 +204,9 @@ Monotone(k, v) == \A i, j \in 1..Len(k) : k[i] <= k[j] => RatLE(v[i], v[j])
 Bounded(k, v, c) == \A i \in 1..Len(k) : RatLE(CMin(c), v[i]) /\ RatLE(v[i], CMax(c))
 P100IsMax(k, v, c) == \A i \in 1..Len(k) : k[i] = 10000 => v[i] = CMax(c)
 P50IsMedian(k, v, c) == \A i \in 1..Len(k) : k[i] = 5000 => v[i] = Median(c)
+
+(* the definition itself: rank p/100*(n-1), linear interpolation between the neighbouring sorted values *)
+IsInterpolated(k, v, c) == \A i \in 1..Len(k) : k[i] \in 0..10000 /\ v[i] = Percentile(c, k[i])
 
 (* quantification over the reported entries and their columns *)
 Tasks(sched) == 1..Len(sched)
@@ -208,6 +224,11 @@ ForTables(S, sched, o, P(_, _, _)) ==      \* P(key sequence, value sequence, co
 PctMonotone(S, sched, o) == ForTables(S, sched, o, LAMBDA k, v, c : Monotone(k, v))
 PctBounds(S, sched, o) == ForTables(S, sched, o, LAMBDA k, v, c : Bounded(k, v, c))
 P100Max(S, sched, o) == ForTables(S, sched, o, LAMBDA k, v, c : P100IsMax(k, v, c))
+PctLinearInterpolation(S, sched, o) ==
+    /\ ForTables(S, sched, o, LAMBDA k, v, c : IsInterpolated(k, v, c))
+    /\ \A i \in Tasks(sched) :
+         LET c == Col(S, "tp", sched[i][1])
+         IN (o.R.ops[i].p /\ c.n > 0 /\ Unamb(S, "tp", sched[i][1])) => o.R.ops[i].tp.med = Percentile(c, 5000)
 P50Median(S, sched, o) ==
     /\ ForTables(S, sched, o, LAMBDA k, v, c : P50IsMedian(k, v, c))
     /\ \A i \in Tasks(sched) :
@@ -251,9 +272,10 @@ OnlyNormal(S, sched, o) == StatPart(o.R) = StatPart(o.RN) /\ o.D = o.DN
 
 RoundTrip(S, sched, o) == o.RL = o.R /\ o.RS = o.R /\ o.diff = <<>>
 
-Clauses == {"OnlyNormal", "PctMonotone", "PctBounds", "P100Max", "P50Median", "MeanMinMax", "PctSetByCount", "ErrorRate", "RoundTrip"}
+Clauses == {"OnlyNormal", "PctLinearInterpolation", "PctMonotone", "PctBounds", "P100Max", "P50Median", "MeanMinMax", "PctSetByCount", "ErrorRate", "RoundTrip"}
 Holds(cl, S, sched, o) ==
     CASE cl = "OnlyNormal" -> OnlyNormal(S, sched, o)
+      [] cl = "PctLinearInterpolation" -> PctLinearInterpolation(S, sched, o)
       [] cl = "PctMonotone" -> PctMonotone(S, sched, o)
       [] cl = "PctBounds" -> PctBounds(S, sched, o)
       [] cl = "P100Max" -> P100Max(S, sched, o)
@@ -266,7 +288,7 @@ Holds(cl, S, sched, o) ==
 (* the observation the transcription of the code would produce *)
 ModelObs(S, sched) ==
     LET R == Results(S, sched)
-    IN [R |-> R, RN |-> Results(NormalOnly(S), sched), RL |-> Load(Persist(R)), RS |-> Load(Persist(R)),
+    IN [R |-> R, RN |-> Results(NormalOnly(S), sched), RL |-> ReadBack(Load(Persist(R)), sched), RS |-> ReadBack(Load(Persist(R)), sched),
         D |-> Direct(S, sched), DN |-> Direct(NormalOnly(S), sched), diff |-> <<>>]
 
 (* documents: loading is total, keeps what is present and a loaded result survives another round trip *)
